@@ -6,6 +6,13 @@ from contracts import rr_ce as CE
 def units(tier):
     us = [Unit(L.Links, {'script': s}) for s in sorted(L.LINK_SCRIPTS)]
     us += [Unit(L.ReleasedSpace, {'variant': 'plain'}), Unit(L.ReleasedSpace, {'variant': 'links'}), Unit(L.ReleasedSpace, {'variant': 'eltorito-twice'})]
+    # random link histories over the three namespaces (names added, linked across namespaces, removed one at a time until the content
+    # is released, rm_file), fresh and going on after the image was written and opened again
+    import os
+    base = int(os.environ.get('VERIF_SEED', '0') or 0) * 1000 if tier != 'quick' else 0
+    for k in range(1, 4 if tier == 'quick' else 41):
+        us.append(Unit(L.Links, {'script': 'random:%d' % (base + k)}))
+        us.append(Unit(L.Links, {'script': 'random:%d:r' % (base + k)}))
     for nl in (1, 2, 3):
         us.append(Unit(CE.SetInode, {'nlinks': nl, 'anchors': 2}))
     # random edit histories with hard links in both namespaces (added, removed one name at a time, rm_file taking all names)
